@@ -2330,19 +2330,17 @@ theorem valueFromPart_fmt {k : Kind} {p : Part} {val : Value} (h : valueFromPart
     · split at h
       · cases h
       · split at h
-        · cases h
         · split at h
-          · split at h
-            · cases h
-            · split at h
-              · simp only [Except.ok.injEq] at h
-                subst h
-                unfold fmtPresent at hf'
-                cases hfm : (alookup (s "format") p.fields).getD none with
-                | none => rw [hfm] at hf'; cases hf'
-                | some f => rfl
-              · cases h
           · cases h
+          · split at h
+            · simp only [Except.ok.injEq] at h
+              subst h
+              unfold fmtPresent at hf'
+              cases hfm : (alookup (s "format") p.fields).getD none with
+              | none => rw [hfm] at hf'; cases hf'
+              | some f => rfl
+            · cases h
+        · cases h
 
 theorem applyChildren_good (hnum : NumValid) (gi vi : Nat) (k : Option Kind) :
     ∀ (ps : List Part) {d : Device}, DevGood d → kindAt d gi vi = k →
